@@ -227,7 +227,7 @@ example : (univ1_1 fontU ++ univ1_2 ++ univ2 ++ univ2wide ++ univ3 ++ univ3wide 
 /-- the glyph-list notation alone: what `writeGlyphList` writes (followed by a line break) is
 read back by `readGlyphList` as the same list -/
 def glOk (f : Font) (l : List Nat) : Bool :=
-  let toks := lexBytes ((newExplainer f).writeGlyphList l ++ [10])
+  let toks := lexBytes (renderBytes ((newExplainer f).writeGlyphList l) ++ [10])
   match (readGlyphList f (toks.length + 2)).run { toks := toks, backlog := [], last := zeroTok } with
   | .ok (r, _) => r == l
   | .error _ => false
